@@ -54,7 +54,7 @@ CLAIMS = {
  "C08": dict(cat="other", sec="4 C08",
    technique="static address-arithmetic analysis: polynomial normal forms of every index/span on the backing slice, bounds from path guards/loop headers/call-site obligations (go/ssa path summaries)",
    text="Every index and span applied to Array2D's backing slice is split as Q1*width + Q0 and shown, on every path reaching it, to satisfy 0<=Q1<height and 0<=Q0<width (spans: ordered, within one row), with bounds taken from the path's own guards, loop headers and, for helpers and internally called methods, obligations at each call site. By the stated lemma this is exactly injectivity of the cell mapping for every shape; constructors (incl. New2DFromJagged), Fill's rectangle, Clone's detachment, the exact windows of Row/RowSpan, complete and exact coordinate guards on every returning/panicking path, and String's one-print-per-cell loop nest are decided as tables; slices.Fill, through which the fill operations write, is re-checked here with C12's rule.",
-   note="Not decided: String's punctuation; copy's truncation semantics (language). The arithmetic lemma (x + y*W bijective on [0,W)x[0,H)) is stated, not machine-checked."),
+   note="Not decided: String's punctuation; copy's truncation semantics (language). The arithmetic lemma the rule rests on (x + y*W is injective on [0,W)x[0,H) with image in [0,W*H), and the stride must be the width) is machine-checked with Lean 4 + Mathlib in /verif/lemmas/C08_cell.lean (an auxiliary artifact, re-checked by scripts/check_lemmas.sh; the check itself is static analysis of the source)."),
  "C07": dict(cat="other", sec="4 C07",
    technique="static ownership/encapsulation, sentinel-flow and path-table analysis over go/ssa (closures resolved through their bindings)",
    text="Decides who may write Sorted's backing slice (only Insert in Add, Remove in Remove/RemoveAt), that it is never aliased in or out (NewSorted makes+copies on every path and leaves its argument alone; nothing returns the slice), that positions come from sort.Search over the whole length with the lower-bound predicate !less(s[i],value), that Index validates with == and < Len, that Remove deletes only at a validated position and otherwise returns -1 unchanged, that Get/RemoveAt proceed exactly on 0 <= index < Len and panic exactly outside, that explicit panics are justified, that the Insert/Remove primitives shift by exactly one on the grown slice (C12's rows, re-run here), that every constructor returning a Sorted copies and sorts, and package-wide that a -1 sentinel never reaches an index.",
@@ -86,7 +86,7 @@ CLAIMS = {
  "C13": dict(cat="other", sec="4 C13",
    technique="static emitter extraction (guard / counted loop / tail) with polynomial normal forms; sibling comparison; allocation-equals-writes",
    text="Chunk/Windowed/Pairs and their Func siblings are read as emitters and compared with the definition (start, step, bound, piece expression, tail guard) and with each other; the slice-returning variants are shown to allocate exactly what they write. Every piece is then non-empty, consecutive and their concatenation the input.",
-   note="Uses the lemma that j=0; j<q*size; j+=size runs q times. ceil(n/size) as arithmetic beyond what the normal forms equate is not decided."),
+   note="Uses the lemmas that j=0; j<q*size; j+=size visits exactly j=k*size for k<q, that len/size plus one for a remainder is ceil(len/size), and that the pieces [k*size, min((k+1)*size, n)) partition [0,n) - machine-checked with Lean 4 + Mathlib in /verif/lemmas/C13_chunk.lean (auxiliary; scripts/check_lemmas.sh). Other ways of writing the count (a ceiling formula) are not equated by the normal forms and fail closed."),
  "C14": dict(cat="other", sec="4 C14",
    technique="static effect (read-only inputs), origin (fresh results), def-use (callback result used), loop-direction and per-function path tables over go/ssa",
    text="For the functional helpers the handful of path rows is the definition: early-exit tables (Index*, Contains*, Any, All, maps.KeyOf/ContainsValue/HasKey), Map/MapErr/Filter/Distinct*/Except* rows, Fold/FoldReverse accumulator threading and direction, GroupBy/CountBy bookkeeping, TryGet/SafeGet*/Last/Trim*, maps.Keys/Values/Clear; plus, for all of them, inputs are only read, promised-new results come from make/append-to-fresh on every path, and callback results are used. The loop-direction rule runs over the whole tree; the set constructors Except relies on (returning their freshly filled set on every path) and maps.Set's Has/Add are re-checked with C03's rows, typ.Zero with C20's.",
